@@ -136,6 +136,101 @@ Definition requote_path (v : str) : option str :=
 Definition unquote_path_safe (v : str) : str :=
   fold_left (fun s ab => replace_all (fst ab) (snd ab) s) unquote_table v.
 
+(* _path_safe(value) = URL.build(path=value, encoded=True).path_safe: yarl's PATH_SAFE_UNQUOTER
+   (ignore="/%", unsafe="+"): every valid %XX (or UTF-8 run of %XX) is decoded, except that a decoded
+   '/' or '%' is written back as an upper-case escape; anything else stays as typed.
+   '/' never takes part in an escape, so the function works segment by segment. *)
+Definition hexval (c : N) : option N :=
+  if (48 <=? c) && (c <=? 57) then Some (c - 48)
+  else if (65 <=? c) && (c <=? 70) then Some (c - 55)
+  else if (97 <=? c) && (c <=? 102) then Some (c - 87)
+  else None.
+
+Definition pct_head (s : str) : option (N * str) :=
+  match s with
+  | c :: h :: l :: r =>
+    if c =? PCT then
+      match hexval h, hexval l with
+      | Some a, Some b => Some (16 * a + b, r)
+      | _, _ => None
+      end
+    else None
+  | _ => None
+  end.
+
+Definition cont_head (s : str) : option (N * str) :=
+  match pct_head s with
+  | Some (b, r) => if (128 <=? b) && (b <=? 191) then Some (b, r) else None
+  | None => None
+  end.
+
+(* strict UTF-8: the candidate code point must encode back to exactly the bytes read *)
+Definition check_cp (cp : N) (bs : list N) : option N :=
+  match utf8_char cp with
+  | Some bs' => if list_eqb bs bs' then Some cp else None
+  | None => None
+  end.
+
+(* s starts with '%': -> (decoded text, number of characters consumed) *)
+Definition decode_head (s : str) : option (str * nat) :=
+  match pct_head s with
+  | None => None
+  | Some (b, r) =>
+    if b <? 128 then
+      Some ((if memN b [SLASH; PCT] then pct_byte b else [b]), 3%nat)
+    else if (194 <=? b) && (b <=? 223) then
+      match cont_head r with
+      | Some (c1, _) =>
+        match check_cp ((b - 192) * 64 + (c1 - 128)) [b; c1] with
+        | Some cp => Some ([cp], 6%nat) | None => None end
+      | None => None
+      end
+    else if (224 <=? b) && (b <=? 239) then
+      match cont_head r with
+      | Some (c1, r1) =>
+        match cont_head r1 with
+        | Some (c2, _) =>
+          match check_cp ((b - 224) * 4096 + (c1 - 128) * 64 + (c2 - 128)) [b; c1; c2] with
+          | Some cp => Some ([cp], 9%nat) | None => None end
+        | None => None
+        end
+      | None => None
+      end
+    else if (240 <=? b) && (b <=? 244) then
+      match cont_head r with
+      | Some (c1, r1) =>
+        match cont_head r1 with
+        | Some (c2, r2) =>
+          match cont_head r2 with
+          | Some (c3, _) =>
+            match check_cp ((b - 240) * 262144 + (c1 - 128) * 4096 + (c2 - 128) * 64 + (c3 - 128)) [b; c1; c2; c3] with
+            | Some cp => Some ([cp], 12%nat) | None => None end
+          | None => None
+          end
+        | None => None
+        end
+      | None => None
+      end
+    else None
+  end.
+
+Fixpoint dec_aux (skip : nat) (s : str) : str :=
+  match s with
+  | [] => []
+  | c :: s' =>
+    match skip with
+    | S k => dec_aux k s'
+    | O =>
+      match decode_head s with
+      | Some (out, n) => out ++ dec_aux (pred n) s'
+      | None => c :: dec_aux O s'
+      end
+    end
+  end.
+
+Definition path_safe_dec (s : str) : str :=
+  join_with [SLASH] (map (dec_aux O) (split_on SLASH s)).
+
 (* ------------------------------------------------------------------ templates *)
 
 Inductive cls := CGood | CDigit | CAny | CLower.
@@ -148,8 +243,10 @@ Definition cls_mem (c : cls) (ch : N) : bool :=
   | CLower => (97 <=? ch) && (ch <=? 122)
   end.
 
-(* Hole n c mn  is the group (?P<n>[c]{mn,}) (greedy) *)
-Inductive item := Lit (s : str) | Hole (name : str) (c : cls) (mn : nat).
+(* Lit f mt: literal text; f is what the formatter (canonical, url_for) carries, mt what the compiled
+   pattern matches (the path_safe form of f for template parts, the raw prefix for add_prefix).
+   Hole n c mn  is the group (?P<n>[c]{mn,}) (greedy) *)
+Inductive item := Lit (f : str) (mt : str) | Hole (name : str) (c : cls) (mn : nat).
 
 (* the regular expressions of the modelled family, by their source text *)
 Definition regex_family : list (str * (cls * nat)) :=
@@ -192,7 +289,7 @@ Fixpoint take_until_close (s : str) : option (str * str) :=
 Definition lit_item (lit_rev : str) : option (list item) :=
   match lit_rev with
   | [] => Some []
-  | _ => match requote_path (rev lit_rev) with Some q => Some [Lit q] | None => None end
+  | _ => match requote_path (rev lit_rev) with Some q => Some [Lit q (path_safe_dec q)] | None => None end
   end.
 
 Fixpoint parse_aux (fuel : nat) (lit_rev : str) (s : str) : option (list item) :=
@@ -219,7 +316,7 @@ Fixpoint parse_aux (fuel : nat) (lit_rev : str) (s : str) : option (list item) :
 Fixpoint hole_names (its : list item) : list str :=
   match its with
   | [] => []
-  | Lit _ :: r => hole_names r
+  | Lit _ _ :: r => hole_names r
   | Hole n _ _ :: r => n :: hole_names r
   end.
 
@@ -236,7 +333,7 @@ Definition parse_template (path : str) : option (list item) :=
 Fixpoint formatter_of (its : list item) : str :=
   match its with
   | [] => []
-  | Lit l :: r => l ++ formatter_of r
+  | Lit l _ :: r => l ++ formatter_of r
   | Hole n _ _ :: r => (123 :: n) ++ 125 :: formatter_of r
   end.
 
@@ -245,7 +342,7 @@ Fixpoint formatter_of (its : list item) : str :=
 Fixpoint match_items (its : list item) : str -> option (list (str * str)) :=
   match its with
   | [] => fun s => if is_nil s then Some [] else None
-  | Lit l :: its' => fun s =>
+  | Lit _ l :: its' => fun s =>
       match strip_prefix l s with Some r => match_items its' r | None => None end
   | Hole n c mn :: its' =>
       let try_here (taken_rev : str) (s : str) :=
@@ -272,7 +369,7 @@ Fixpoint match_items (its : list item) : str -> option (list (str * str)) :=
 Fixpoint format_items (its : list item) (vals : list (str * str)) : option str :=
   match its with
   | [] => Some []
-  | Lit l :: r => match format_items r vals with Some t => Some (l ++ t) | None => None end
+  | Lit l _ :: r => match format_items r vals with Some t => Some (l ++ t) | None => None end
   | Hole n _ _ :: r =>
     match assoc n vals with
     | Some v => match quote_path v, format_items r vals with
@@ -356,7 +453,7 @@ Definition is_dom (r : resource) : bool := match r with RDom _ _ _ => true | _ =
 (* UrlDispatcher._get_resource_index_key *)
 Definition index_key_of (c : str) : str :=
   let k := if memN ik_brace c then rpart ik_sep (before_char ik_brace c) else c in
-  match rstrip ik_sep k with [] => [ik_sep] | k' => k' end.
+  match path_safe_dec (rstrip ik_sep k) with [] => [ik_sep] | k' => k' end.
 Definition index_key (r : resource) : str := index_key_of (canonical r).
 
 Fixpoint idx_get (k : str) (ix : index) : option (list nat) :=
@@ -408,10 +505,22 @@ Inductive outcome := OFinal (r : result) | ONo (allowed : list str) | OBroken.
 
 Definition finish (acc : list str) : result := if is_nil acc then NotFound else NotAllowed acc.
 
+(* UrlDispatcher._merge_allowed: a sub-application's own 404/405 keeps the methods collected before it
+   (a 404 becomes a 405 when something was collected) *)
+Definition merge_allowed (acc : list str) (r : result) : result :=
+  match acc with
+  | [] => r
+  | _ => match r with
+         | NotFound => NotAllowed acc
+         | NotAllowed a => NotAllowed (acc ++ a)
+         | _ => r
+         end
+  end.
+
 Fixpoint scan (os : list outcome) (acc : list str) : result :=
   match os with
   | [] => finish acc
-  | OFinal r :: _ => r
+  | OFinal r :: _ => merge_allowed acc r
   | ONo a :: os' => scan os' (acc ++ a)
   | OBroken :: _ => Broken
   end.
@@ -427,10 +536,12 @@ Definition FILENAME : str := [102; 105; 108; 101; 110; 97; 109; 101].
 Definition static_norm_ok (prefix : str) (p : str) : bool :=
   let n := normpath p in starts_with (prefix ++ [SLASH]) n || list_eqb n prefix.
 
+(* prefix = _prefix (quoted); the tests use _prefix_safe = _path_safe(_prefix) *)
 Definition static_outcome (prefix : str) (rt : routes) (p m : str) : outcome :=
-  if static_norm_ok prefix p then
+  let ps := path_safe_dec prefix in
+  if static_norm_ok ps p then
     match assoc m rt with                      (* method in allowed_methods: exact, no wildcard *)
-    | Some h => OFinal (Found h [(FILENAME, unquote_path_safe (skipn (S (length prefix)) p))])
+    | Some h => OFinal (Found h [(FILENAME, unquote_path_safe (skipn (S (length ps)) p))])
     | None => ONo (map fst rt)
     end
   else ONo [].
@@ -573,13 +684,13 @@ Definition reindex_loop (f : resource -> bres resource) :=
     match l with
     | [] => BOk ([], ix)
     | r :: l' =>
-      match idx_remove (index_key r) i ix with
+      match (if is_dom r then BOk ix else idx_remove (index_key r) i ix) with
       | BErr e => BErr e
       | BOk ix1 =>
         match f r with
         | BErr e => BErr e
         | BOk r' =>
-          match loop l' (S i) (idx_append (index_key r') i ix1) with
+          match loop l' (S i) (if is_dom r then ix1 else idx_append (index_key r') i ix1) with
           | BErr e => BErr e
           | BOk (l'', ix2) => BOk (r' :: l'', ix2)
           end
@@ -590,7 +701,7 @@ Definition reindex_loop (f : resource -> bres resource) :=
 Fixpoint add_prefix (pfx : str) (r : resource) : bres resource :=
   match r with
   | RPlain p rt => BOk (RPlain (pfx ++ p) rt)
-  | RDyn o f pat rt => BOk (RDyn o (pfx ++ f) (Lit pfx :: pat) rt)
+  | RDyn o f pat rt => BOk (RDyn o (pfx ++ f) (Lit pfx pfx :: pat) rt)
   | RStatic p rt => BOk (RStatic (pfx ++ p) rt)
   | RSub p rs ix =>
     match reindex_loop (add_prefix pfx) rs 0%nat ix with
